@@ -125,6 +125,7 @@ def describe(x):
     return {
         "dims": list(x.dims),
         "shape": list(x.shape),
+        "loaded_shape": list(v.shape),
         "dtype": str(v.dtype),
         "bytes": v.tobytes().hex(),
         "coords": {str(k): [list(c.dims), str(c.dtype), np.asarray(c.values).tobytes().hex()] for k, c in sorted(x.coords.items())},
@@ -194,7 +195,7 @@ def compare(da, twin, ops, ref=None):
         detail = f"lazy raises {got[1]} in <{got[2]}>: {got[3]}; in-memory gives shape {want[1]['shape']}"
         extra["raised_in"] = got[2]
     elif got[1] != want[1]:
-        k = next(k for k in ("dims", "shape", "dtype", "coords", "bytes") if got[1][k] != want[1][k])
+        k = next(k for k in ("dims", "shape", "loaded_shape", "dtype", "coords", "bytes") if got[1][k] != want[1][k])
         detail = f"{k}: lazy {str(got[1][k])[:100]} != in-memory {str(want[1][k])[:100]}"
         extra["differs"] = k
     else:
